@@ -591,6 +591,14 @@ def _check_edge_overlap(begin: sc.Variable, end: sc.Variable) -> None:
     begin, end = edges['edge', 0], edges['edge', 1]
     if sc.any(begin[1:] <= end[:-1]):
         raise ValueError('The chopper has overlapping slits.')
+    # The disk is periodic: the last slit may extend beyond top-dead-center and
+    # overlap the first one (or itself) one turn earlier.
+    if len(begin) > 0:
+        full_turn = sc.scalar(360.0, unit='deg').to(unit=begin.unit)
+        if (end[-1] - full_turn > begin[0]).value:
+            raise ValueError(
+                'The chopper has slits that overlap across top-dead-center.'
+            )
 
 
 def _broadcast_slit_height(
